@@ -48,6 +48,10 @@ def run(tier):
     _c_refiners(chk, tier)
     _b_integrate_wrappers(chk)
     _e_wrapper(chk)
+    # the derivative fed to the symplectic driver's Hermite interpolant is the Hamiltonian vector field (dH/dP, -dH/dQ)
+    from . import c16
+    from .common import Relabel
+    c16._gradient_slots(Relabel(chk, {"C16.d": "C11.c-derivative"}))
     return chk
 
 
@@ -172,6 +176,7 @@ def _b_symplectic(chk, tier):
     mod, fn = ri.find_def(SY, "_integrate_symplectic_until_event")
     n = 0
     bad = []
+    carried = []
     for direction in (-1, 0, 1):
         for tape in itertools.product(signs, repeat=4):
             n += 1
@@ -233,8 +238,25 @@ def _b_symplectic(chk, tier):
             ok = ok and evs[0] == ("EVENT", vkey(grid[0]), vkey(y0))
             for j, e in enumerate(evs[1:]):
                 ok = ok and e == ("EVENT", vkey(grid[j + 1]), vkey(to_obj_array([sp.Symbol(f"Z{j}_{k}", real=True) for k in range(6)])))
+            # the composite step advances the carried extended state (Q,P,X,Y): lifted once from y0 with X=Q, Y=P, then each step
+            # starts from the full 12-vector the previous step produced (re-lifting X,Y from Q,P every step destroys the
+            # binding that keeps the energy error bounded and makes the event path differ from the plain path)
+            steps = [e for e in trace if e[0] == "STEP"]
+            for j, e in enumerate(steps):
+                if j == 0:
+                    want_q, want_x = vkey(y0), vkey(y0)
+                else:
+                    prev = to_obj_array([sp.Symbol(f"Z{j - 1}_{k}", real=True) for k in range(12)])
+                    want_q, want_x = vkey(prev[:6]), vkey(prev[6:])
+                if e != ("STEP", want_q, vkey(grid[j + 1] - grid[j]), want_x):
+                    ok = False
+                    carried.append((direction, [int(x) for x in tape], j))
+                    break
             if not ok:
                 bad.append((direction, [int(x) for x in tape], str(out[:2])))
+    chk.check(not carried, "C11.b", f"{SY}::_integrate_symplectic_until_event[extended state]",
+              f"{len(carried)} of {n} cases: a composite step does not start from the extended state (Q,P,X,Y) the previous step produced (first step: X=Q0, Y=P0) "
+              f"with dt = t[i+1]-t[i], e.g. (direction, tape, step) = {carried[0] if carried else ''}", sample="q_ext carried across steps; dt = grid differences")
     chk.check(not bad, "C11.b", f"{SY}::_integrate_symplectic_until_event[protocol]",
               f"{len(bad)} of {n} cases deviate from the event protocol, e.g. {bad[0] if bad else ''}", sample=f"{n} tapes match the reference protocol")
     chk.count("driver tapes unrolled", n)
